@@ -192,6 +192,14 @@ func (conn *Conn) SetBufferSize(size int) {
 	}
 }
 
+// ended reports whether the connection is closing or has shut down.
+func (conn *Conn) ended() bool {
+	conn.mutex.Lock()
+	ended := conn.shutdown || conn.closing
+	conn.mutex.Unlock()
+	return ended
+}
+
 // SetNoCopy reuses a buffer from the pool for minimizing memory allocations.
 func (conn *Conn) SetNoCopy(noCopy bool) {
 	conn.noCopy = noCopy
